@@ -1462,6 +1462,13 @@ impl<'t, 'c> Gen<'t, 'c> {
                     body.push(Stmt::CallSub(sub_ids[0], vec![]));
                     body.push(self.tok("v"));
                 }
+                // a GOSUB routine of the subprogram's own; it ends with RETURN or leaves the subprogram with its GOSUB
+                // still pending (which is over then: a later RETURN of the caller must not see it)
+                let own_routine = if self.t.chance(1, 3) { Some(format!("PR{}", k + 1)) } else { None };
+                if let Some(l) = &own_routine {
+                    body.push(Stmt::Gosub(l.clone()));
+                    body.push(self.tok("j"));
+                }
                 let kind = *self.t.pick(&[0usize, 1, 3, 5, 6, 5, 6]);
                 let f = self.failing(&pcv, kind);
                 let e = self.enclose(f);
@@ -1469,6 +1476,12 @@ impl<'t, 'c> Gen<'t, 'c> {
                 // otherwise the block with the failing statement is the last statement of the subprogram
                 if self.t.chance(2, 3) {
                     body.push(self.tok("u"));
+                }
+                if let Some(l) = own_routine {
+                    body.push(Stmt::ExitProc);
+                    body.push(Stmt::Label(l));
+                    body.push(self.tok("p"));
+                    body.push(if self.t.chance(1, 2) { Stmt::Return } else { Stmt::ExitProc });
                 }
                 self.prog.procs[p].body = body;
                 self.in_proc = None;
